@@ -573,9 +573,11 @@ def check_grid(r1, r2, pad, sp, dtype, got):
         return "malformed-result", f"returned {type(got).__name__} of shape {getattr(got, 'shape', None)}"
     if got.dtype.kind != "f":
         return "malformed-result", f"dtype {got.dtype}"
+    if got.dtype != np.dtype(dtype):
+        return "result-dtype-differs-from-requested", f"dtype={dtype!r} was requested, the grid has dtype {got.dtype}"
     g = got.astype(np.float64)
     M = max(1.0, max(abs(float(v)) for v in list(r1) + list(r2)) + pad)
-    tol = 2 * ULPS * EPS[got.dtype.itemsize] * M
+    tol = 2 * ULPS * EPS[np.dtype(dtype).itemsize] * M  # the precision that was asked for
     ks = []
     counts = []
     for ax in range(3):
@@ -757,6 +759,32 @@ def grid_case(ctx, agg, r1, r2, pad, sp, dtype, argkind="list"):
     ctx.outcome(("grid", tuple(det_counts)))
 
 
+DTYPE_SPELLINGS = (("'float32'", "float32"), ("'float64'", "float64"), ("'f4'", "f4"), ("'f8'", "f8"), ("np.float32", np.float32), ("np.float64", np.float64), ("np.dtype('f4')", np.dtype("f4")), ("np.dtype('f8')", np.dtype("f8")))
+
+
+def grid_dtype_case(ctx, agg, r1, r2, pad, sp, spelling_src, spelling):
+    """every way of spelling the dtype argument: the grid has that dtype and is the lattice to that precision"""
+    name = np.dtype(spelling).name
+    if "skip" in [grid_axis_class(r1[ax], r2[ax], pad, sp)[0] for ax in range(3)]:
+        return
+    op = "rectangular_grid"
+    attrs = {"dtype": name, "dtype-given-as": spelling_src}
+    agg.tick(op, **attrs)
+    ctx.count(evaluations=1, traces=1, transitions=1, states=1)
+    try:
+        got = gb.rectangular_grid(list(r1), list(r2), padding=pad, spacing=sp, dtype=spelling)
+    except Exception as e:
+        sym, det = f"raised-{type(e).__name__}", f"raised {type(e).__name__}: {e}"
+    else:
+        sym, det = check_grid(r1, r2, pad, sp, name, got)
+    if sym:
+        case = {"kind": "grid-dtype", "op": op, "symptom": sym, "r1": list(r1), "r2": list(r2), "pad": pad, "sp": sp, "spelling": spelling_src}
+        repro = f"import numpy as np\nfrom molli.descriptor.gridbased import rectangular_grid\ng = rectangular_grid({list(r1)!r}, {list(r2)!r}, padding={pad!r}, spacing={sp!r}, dtype={spelling_src})\nprint(g.dtype, g.shape, g.min(axis=0), g.max(axis=0))"
+        agg.fail(op, sym, attrs, f"rectangular_grid({list(r1)}, {list(r2)}, padding={pad}, spacing={sp}, dtype={spelling_src}): {det}", case, repro)
+        return
+    ctx.outcome(("grid-dtype", name, tuple(det)))
+
+
 def grid_menus(seed, thorough):
     corners = [(0.0, 0.0, 0.0), (-1.0, 0.0, 0.5), (-1.5, -2.0, 0.25)]
     extents = [(0.0, 0.0, 0.0), (1.3, 0.4, 2.15), (2.0, 1.0, 0.5), (0.9, 2.6, 1.7), (3.05, 0.35, 1.1), (1.5, 0.0, 3.0)]
@@ -776,6 +804,13 @@ def grid_menus(seed, thorough):
 
 def grid_job(ctx, agg, arg):
     corners, extents, pads, spacings = grid_menus(arg["seed"], arg["thorough"])
+    for r1 in corners:
+        for ex in extents[:4]:
+            r2 = tuple(float(F(r1[i]) + F(ex[i])) for i in range(3))
+            for pad in (0, 0.0, 0.3):  # the integer 0 and the float 0.0 are both 'no padding'
+                for sp in (spacings[1], spacings[2]):
+                    for src, spelling in DTYPE_SPELLINGS:
+                        grid_dtype_case(ctx, agg, r1, r2, pad, sp, src, spelling)
     for r1 in corners:
         for ex in extents:
             r2 = tuple(float(F(r1[i]) + F(ex[i])) for i in range(3))
@@ -1149,7 +1184,7 @@ def run(ctx):
         "float32 for the *f_ names, float64 for the *d_ names, the input width for the overloaded names (int and mixed input: float32)",
         "kernels are only given (n,3)/(x,n,3) arrays; other trailing dimensions are outside the property",
         "src implementation: the conversion pybind11 performs (c_style | forcecast) is done by the harness, so layouts/dtype dispatch are only visible through the shipped .so",
-        "rectangular_grid: order of the rows and the dtype are not constrained; per axis the lattice has floor(extent/spacing)+1 points, centred; "
+        "rectangular_grid: the order of the rows is not constrained; the grid has the requested dtype (however it is spelled) and is the lattice to THAT precision; per axis the lattice has floor(extent/spacing)+1 points, centred; "
         "extent/spacing stays >= 1e-3 away from an integer, except (a) exact multiples of exactly representable (dyadic) numbers, where the count is decided "
         "in rational arithmetic and demanded, and (b) decimal multiples whose binary images are not multiples (e.g. padding 0.3), where both k and k+1 points are accepted",
         f"cut-offs and sphere surfaces: a grid point closer than {BAND:g} x max(1, coordinate magnitude) to the surface / cut-off is not compared (float32 rounding band)",
@@ -1258,6 +1293,9 @@ def _replay_here(ctx, agg, case, emit=True):
     if kind == "kernel":
         src = SrcKernels(compile_src(ctx.scratch)) if case["impl"] == "src" else None
         kernel_case(ctx, agg, case["impl"], src, case["name"], np.array(case["A"], dtype=np.float64).reshape(-1, 3) if np.array(case["A"]).ndim < 3 else np.array(case["A"], dtype=np.float64), np.array(case["B"], dtype=np.float64).reshape(-1, 3), case["dt"], case["la"], case["lb"], "replay")
+    elif kind == "grid-dtype":
+        sp_map = dict(DTYPE_SPELLINGS)
+        grid_dtype_case(ctx, agg, tuple(case["r1"]), tuple(case["r2"]), case["pad"], case["sp"], case["spelling"], sp_map[case["spelling"]])
     elif kind == "grid":
         grid_case(ctx, agg, tuple(case["r1"]), tuple(case["r2"]), case["pad"], case["sp"], case["dtype"], case.get("argkind", "list"))
     elif kind == "nearest_prune":
